@@ -38,7 +38,7 @@ Definition DOM_DEPTH : nat := 3.
     replaced by each candidate of its type, an extra key *)
 Definition assignments (o : sopts) (doc : tsdoc) (vds : list vardef) : list val :=
   let cands (vd : vardef) := vals o doc OpIn DOM_DEPTH (ty_norm (vd_type vd)) in
-  let canon := flat_map (fun vd => match find (fun v => negb (is_undef v) && Ref_ty o doc OpIn (vd_type vd) v) (rev (cands vd)) with
+  let canon := flat_map (fun vd => match find (fun v => negb (is_undef v) && Ref_ty o doc OpIn (vd_type vd) v) (cands vd) with
                                    | Some v => [(vd_name vd, v)]
                                    | None => []
                                    end) vds in
